@@ -191,6 +191,38 @@ variable {G : MG Name} {w : World} {s : Name → Bool} {ev : Event} {g : MG Var}
 
 /-! ## line 9 -/
 
+/-- the term of line 9 under the reading `τ` (pure computation): the joint event of the plain names of the nodes, in the world
+made of all their subscripts -/
+theorem line9_reading (M : Model) (ν : BaseValues) (dom : Name → Nat) (g' : MG Var) (e9 : Expr) (h9 : line9 g' = .ok e9)
+    (τ : Valuation) :
+    cden M ν dom e9 τ =
+      prob M (((upgradeOrdering ((g'.nodes.map (·.name)).map Var.plain)).map (·.name)).map fun V =>
+        ⟨V, worldOf (nuOf ν τ) (ivsCanon (cfInterventions g'.nodes)), τ V⟩) := by
+  unfold line9 probSafe at h9
+  simp only at h9
+  split at h9
+  · cases h9
+  · split at h9
+    · rename_i hemp
+      simp only [Except.ok.injEq] at h9
+      subst h9
+      have hW0 : cfInterventions g'.nodes = [] := by simpa using hemp
+      simp only [cden]
+      conv_rhs => rw [List.map_map]
+      congr 1
+      apply List.map_congr_left
+      intro c hc
+      rw [mem_upgradeOrdering] at hc
+      obtain ⟨n, _, rfl⟩ := List.mem_map.1 hc
+      simp only [Function.comp, leafConj, conjunctOf, hW0, ivValue, nuOf, Var.plain]
+      rfl
+    · simp only [Except.ok.injEq] at h9
+      subst h9
+      simp only [cden]
+      conv_lhs => rw [List.map_map]
+      conv_rhs => rw [List.map_map]
+      congr 1
+
 /-- the term of line 9, read under `τ`: the joint distribution of all non-self-intervened variables in the world of the event -/
 theorem line9_leaf (M : Model) (ν : BaseValues) (dom : Name → Nat) (hM : Compatible M G) (facts : SWFacts G w s ev g nev)
     (hwc : ConsistentSubs w) (e9 : Expr) (h9 : line9 (nsiSubgraph g) = .ok e9) (τ : Valuation)
@@ -224,32 +256,7 @@ theorem line9_leaf (M : Model) (ν : BaseValues) (dom : Name → Nat) (hM : Comp
   -- shape of the term
   set children := upgradeOrdering ((N.map (·.name)).map Var.plain) with hch
   have hT9 := ranges_spec (N.map (·.name))
-  have hleaf : cden M ν dom e9 τ =
-      prob M ((children.map (·.name)).map fun V => ⟨V, worldOf (nuOf ν τ) (ivsCanon W), τ V⟩) := by
-    unfold line9 probSafe at h9
-    simp only at h9
-    split at h9
-    · cases h9
-    · split at h9
-      · rename_i hemp
-        simp only [Except.ok.injEq] at h9
-        subst h9
-        have hW0 : W = [] := by simpa using hemp
-        simp only [cden]
-        conv_rhs => rw [List.map_map]
-        congr 1
-        apply List.map_congr_left
-        intro c hc
-        rw [mem_upgradeOrdering] at hc
-        obtain ⟨n, _, rfl⟩ := List.mem_map.1 hc
-        simp only [Function.comp, leafConj, conjunctOf, hW0, ivValue, nuOf, Var.plain]
-        rfl
-      · simp only [Except.ok.injEq] at h9
-        subst h9
-        simp only [cden]
-        conv_lhs => rw [List.map_map]
-        conv_rhs => rw [List.map_map]
-        congr 1
+  have hleaf := line9_reading M ν dom (nsiSubgraph g) e9 h9 τ
   rw [hleaf]
   have hTmem : ∀ V, V ∈ children.map (·.name) ↔ ∃ n ∈ (nsiSubgraph g).nodes, n.name = V := by
     intro V
